@@ -123,6 +123,7 @@ def generate(tier, rng):
     for k in range(n):
         d = gen_definition(rng, k)
         via = ["direct", "reader", "csv", "excel", "direct", "csv"][k % 6]
+        d = dict(d, spell=(k // 2) % 2)     # definitions written with the field names instead of their aliases
         cases.append(dict(stream="valid", kind="build", defn=d, via=via, fault=None, sheet=(k % 2 == 0), orient=["row", "col"][k % 2], header=(k % 3 == 0)))
         f = FAULTS[k % len(FAULTS)]
         fd = inject_fault(rng, d, f)
@@ -168,11 +169,13 @@ def _write_dim_file(tmp, dm, orient, header, fmt, bad=False, tag=""):
 def _mk_definition(d):
     import flodym as fd
     dt = {"int": int, "str": str}
-    dimdefs = [fd.DimensionDefinition(name=DIMS[l]["name"], letter=l, dtype=dt[DIMS[l]["dtype"]]) for l in d["letters"]]
-    flows = [fd.FlowDefinition(from_process=f["frm"], to_process=f["to"], dim_letters=tuple(f["dims"]), name_override=f["override"]) for f in d["flows"]]
+    spell = d.get("spell", 0)     # 0: the aliases of the examples (process=, from_process=, letter=); 1: the field names
+    LK, FK, TK, PK = [("letter", "from_process", "to_process", "process"), ("dim_letter", "from_process_name", "to_process_name", "process_name")][spell]
+    dimdefs = [fd.DimensionDefinition(**{"name": DIMS[l]["name"], LK: l, "dtype": dt[DIMS[l]["dtype"]]}) for l in d["letters"]]
+    flows = [fd.FlowDefinition(**{FK: f["frm"], TK: f["to"], "dim_letters": tuple(f["dims"]), "name_override": f["override"]}) for f in d["flows"]]
     stocks = []
     for s in d["stocks"]:
-        kw = dict(name=s["name"], process=s["process"], dim_letters=tuple(s["dims"]), time_letter=s["time"], subclass=getattr(fd, CLASSES[s["cls"]]), solver=s["solver"])
+        kw = {"name": s["name"], PK: s["process"], "dim_letters": tuple(s["dims"]), "time_letter": s["time"], "subclass": getattr(fd, CLASSES[s["cls"]]), "solver": s["solver"]}
         if s["lifetime"]:
             kw["lifetime_model_class"] = getattr(fd, s["lifetime"])
         stocks.append(fd.StockDefinition(**kw))
